@@ -34,6 +34,7 @@ type ActorCfg struct {
 	Parent      string   `json:"parent"`
 	Kids        []string `json:"kids"`
 	MaxRestarts int      `json:"maxRestarts"`
+	Succ        string   `json:"succ"` // spawned under this actor's id from inside its final Stopped handler
 }
 
 type TokCfg struct {
@@ -163,6 +164,7 @@ type harness struct {
 	seq       atomic.Int64
 	arrive    chan *arrival
 	mu        sync.Mutex
+	onSpret   func(string)
 	log       []Entry
 	events    []Event
 	incs      map[string]int
@@ -179,8 +181,19 @@ type harness struct {
 	evCount   atomic.Int64
 }
 
+// idName: the name whose id this actor runs under (a successor takes over its predecessor's id)
+func (h *harness) idName(name string) string {
+	for n, c := range h.cfg.Actors {
+		if c.Succ == name {
+			return h.idName(n)
+		}
+	}
+	return name
+}
+
 func (h *harness) pidOf(name string) *actor.PID {
 	// ids: roots "a/<name>", children "<parent id>/k/<name>"
+	name = h.idName(name)
 	c := h.cfg.Actors[name]
 	if c.Parent == "" {
 		return actor.NewPID("local", "a/"+name)
@@ -194,7 +207,7 @@ func (h *harness) nameOf(pid *actor.PID) string {
 	}
 	for n, p := range h.pids {
 		if p.ID == pid.ID {
-			return n
+			return h.idName(n) // (a successor runs under its predecessor's id: events cannot tell them apart)
 		}
 	}
 	return ""
@@ -256,8 +269,8 @@ func (r *rec) Receive(c *actor.Context) {
 	if h.inside[r.name] > 1 {
 		h.overlap = true
 	}
-	seen := h.seen[r.name]
-	h.seen[r.name] = nil
+	seen := h.seen[h.idName(r.name)]
+	h.seen[h.idName(r.name)] = nil
 	mwok := len(seen) == h.sc.MW
 	for i, v := range seen {
 		if v.pos != i+1 || v.kind != kind || v.id != id || v.sender != c.Sender() {
@@ -304,6 +317,17 @@ func (r *rec) Receive(c *actor.Context) {
 	h.mu.Unlock()
 	close(a.ack)
 
+	if succ := h.cfg.Actors[r.name].Succ; kind == "Stopped" && succ != "" && !en.Sreg {
+		h.mu.Lock()
+		ever := h.incs[succ] > 0
+		h.mu.Unlock()
+		if !ever { // the id is free now: a successor takes it over (Spawn returns after its Started)
+			c.Engine().Spawn(h.producer(succ), "a", h.opts(succ)...)
+			if h.onSpret != nil {
+				h.onSpret(succ)
+			}
+		}
+	}
 	if kind == "Started" {
 		for _, k := range h.cfg.Actors[r.name].Kids {
 			h.mu.Lock()
@@ -377,7 +401,7 @@ func (h *harness) ownMW(name string, pos int) actor.MiddlewareFunc {
 }
 
 func (h *harness) opts(name string) []actor.OptFunc {
-	o := []actor.OptFunc{actor.WithID(name), actor.WithMaxRestarts(h.cfg.Actors[name].MaxRestarts),
+	o := []actor.OptFunc{actor.WithID(h.idName(name)), actor.WithMaxRestarts(h.cfg.Actors[name].MaxRestarts),
 		actor.WithRestartDelay(50 * time.Microsecond), actor.WithInboxSize(h.sc.Inbox)}
 	if h.sc.MW > 0 {
 		o = append(o, actor.WithMiddleware(h.base[:h.sc.MW-1]...), actor.WithMiddleware(h.ownMW(name, h.sc.MW)))
@@ -488,6 +512,11 @@ func runScenario(cfg Config, sc Scenario) *Result {
 	pending := map[string]*arrival{}
 	spret := map[string]bool{}
 	var spmu sync.Mutex
+	h.onSpret = func(name string) {
+		spmu.Lock()
+		spret[name] = true
+		spmu.Unlock()
+	}
 	doneSet := func() []string {
 		out := []string{}
 		for t := range res.Done {
@@ -641,6 +670,46 @@ func runScenario(cfg Config, sc Scenario) *Result {
 	for int(h.evCount.Load()) < sc.NEvents && time.Now().Before(deadline) {
 		time.Sleep(200 * time.Microsecond)
 	}
+	// a delivery the behaviour does not predict may still be on its way (a goroutine has to be scheduled first): every
+	// granted delivery has returned, then watch for a moment; what arrives unasked for ends the steering and is logged
+	if !res.Diverged && len(sc.Steps) > 0 {
+		last := &sc.Steps[len(sc.Steps)-1]
+		until := time.Now().Add(settle)
+		for time.Now().Before(until) {
+			h.mu.Lock()
+			busy := 0
+			for n, k := range h.inside {
+				if _, parked := pending[n]; parked {
+					k--
+				}
+				busy += k
+			}
+			h.mu.Unlock()
+			if busy <= 0 {
+				break
+			}
+			time.Sleep(100 * time.Microsecond)
+		}
+		watch := time.Now().Add(2 * grace)
+	lastWatch:
+		for {
+			select {
+			case a := <-h.arrive:
+				if old, dup := pending[a.g.A]; dup && old != a {
+					h.extra = append(h.extra, a)
+				} else {
+					pending[a.g.A] = a
+				}
+			case <-time.After(100 * time.Microsecond):
+				if time.Now().After(watch) {
+					break lastWatch
+				}
+			}
+		}
+		if !sameGates(pending, last.Gates) || len(h.extra) > 0 {
+			diverge(len(sc.Steps), fmt.Sprintf("after the last step: want gates %v, got gates %v (+%d)", last.Gates, gatesOf(pending), len(h.extra)))
+		}
+	}
 	if res.Diverged || sc.Racy {
 		// unsteered, or steered through a race the code may have resolved the other way: nothing tells us when the
 		// engine is done; require two identical observations 60 ms apart
@@ -679,6 +748,9 @@ func runScenario(cfg Config, sc Scenario) *Result {
 					}
 				}
 				cur += fmt.Sprint(gatesOf(pending))
+				if last := &sc.Steps[len(sc.Steps)-1]; !sameGates(pending, last.Gates) || len(h.extra) > 0 {
+					diverge(len(sc.Steps), fmt.Sprintf("after the last step: want gates %v, got gates %v (+%d)", last.Gates, gatesOf(pending), len(h.extra)))
+				}
 			}
 		}
 	}
